@@ -23,6 +23,14 @@
 //!     get_value(uuid, None) succeeds; then one byte inside that object's text in its pack is replaced in storage;
 //!     R reads 20 other objects (each must be Err or its original value), then get_value(uuid, None) again must
 //!     be Err or the ORIGINAL value.
+//! (d) catch-up:<files>[:active]  a source with 3 commits (d1,p1,d2,p2,d3,p3); ANY subset of its files reached the
+//!     receiver earlier by plain file copy (e.g. only d2: a block without its pack), the receiver refreshed (held-back
+//!     blocks); `active`: the receiver has a commit of its own.  Then meld in both directions + refresh until nothing new
+//!     arrives: receiver state == source state (objects, winners, conflicts, anchors, read), the receiver's storage holds
+//!     every item of the source's, all content addressed; a replica reopened on it agrees.
+//! (e) interrupted-meld:<reopen|refresh>[+preloaded]:N<k>  the destination's storage accepts only the first k writes of the
+//!     meld (k = 0..6); the destination is then reopened with Melda::new (or refreshed), the fault is gone, the meld is
+//!     retried + refresh: destination == source as in (d).  `preloaded`: the first commit had arrived completely before.
 //! Every part runs in a worker thread under a 10 s watchdog.
 use super::orch::{self, Dyn, Out, OverlayAdapter};
 use super::FailureClasses;
@@ -436,6 +444,177 @@ fn reread_damaged(target: &str, step: usize, out: &Out) {
     }
 }
 
+// ------------------------------------------------------------------------------------------ (d) catch-up, (e) interrupted meld
+
+fn chain_doc(step: usize) -> Map<String, Value> {
+    let mut m = Map::new();
+    m.insert("title".into(), json!(format!("t{}", step)));
+    m.insert(k("a"), json!({"_id": "o1", "v": step}));
+    m.insert(k("b"), json!({"_id": "o2", "s": "x}y"}));
+    m.insert(k("list"), Value::Array((1..=step + 1).map(|i| json!({"_id": format!("i{}", i), "n": i})).collect()));
+    m
+}
+
+/// a source with `n` commits; returns (replica, adapter, its items with labels d1,p1,d2,p2,..)
+fn chain_source(n: usize) -> Result<(Melda, Dyn, Vec<(String, String, Vec<u8>)>), String> {
+    let ad = orch::mem();
+    let s = orch::open(&ad)?;
+    let mut labelled = vec![];
+    for step in 1..=n {
+        orch::ge("S.update", || s.update(chain_doc(step)))?;
+        let heads = orch::ge("S.commit", || s.commit(if step % 2 == 0 { Some(orch::obj(json!({"step": step}))) } else { None }))?.ok_or("commit returned Ok(None)")?;
+        let id = heads.iter().next().cloned().ok_or("no head")?;
+        let d = orch::ge("get_delta", || s.get_delta(&id))?.ok_or("get_delta(head) is None")?;
+        let items = orch::items_of(&ad)?;
+        labelled.push((format!("d{}", step), id.key(), items.get(&id.key()).cloned().ok_or("block file missing")?));
+        for p in d.packs.clone().unwrap_or_default() {
+            let key = format!("{}.pack", p);
+            labelled.push((format!("p{}", step), key.clone(), items.get(&key).cloned().ok_or("pack file missing")?));
+        }
+    }
+    Ok((s, ad, labelled))
+}
+
+fn exchange(r: &mut Melda, s: &mut Melda) -> Result<usize, String> {
+    for round in 1..=6 {
+        let n1 = orch::ge("R.meld(S)", || r.meld(s))?.len();
+        orch::ge("R.refresh", || r.refresh())?;
+        let n2 = orch::ge("S.meld(R)", || s.meld(r))?.len();
+        orch::ge("S.refresh", || s.refresh())?;
+        if n1 + n2 == 0 {
+            return Ok(round);
+        }
+    }
+    Err("the exchange did not settle within 6 rounds (something new arrives every time)".into())
+}
+
+fn same_end_state(r: &Melda, r_ad: &Dyn, s: &Melda, s_ad: &Dyn, ctx: &str) -> Result<(), String> {
+    let (sr, ss) = (orch::state(r), orch::state(s));
+    if let Some(d) = orch::first_difference(&sr, &ss, &orch::STATE_KEYS) {
+        return Err(format!("{}: receiver vs source; {}", ctx, d));
+    }
+    let (ir, is) = (orch::items_of(r_ad)?, orch::items_of(s_ad)?);
+    for key in is.keys() {
+        if !ir.contains_key(key) {
+            return Err(format!("{}: the receiver's storage lacks {}", ctx, key));
+        }
+    }
+    if let Some(v) = storage_violation(r_ad)? {
+        return Err(format!("{}: {}", ctx, v));
+    }
+    // and a replica reopened on the receiver's storage agrees
+    let f = orch::open(r_ad)?;
+    if let Some(d) = orch::first_difference(&orch::state(&f), &ss, &orch::STATE_KEYS) {
+        return Err(format!("{}: replica reopened on the receiver's storage vs source; {}", ctx, d));
+    }
+    Ok(())
+}
+
+/// (d) some of the source's files reached the receiver EARLIER by plain file copy (any subset: e.g. only the block file of
+/// the second commit), the receiver refreshed (blocks without their pack or parents are held back); `active`: the receiver
+/// also has a commit of its own.  Then both meld from each other + refresh until nothing new arrives.
+fn catch_up(n: usize, mask: u32, active: bool) -> Result<(), String> {
+    let (mut s, s_ad, items) = chain_source(n)?;
+    let r_ad = orch::mem();
+    let mut r = orch::open(&r_ad)?;
+    if active {
+        orch::ge("R.create_object", || r.create_object("own", orch::obj(json!({"mine": true}))))?;
+        orch::ge("R.commit", || r.commit(None))?;
+    }
+    for (i, (_, key, bytes)) in items.iter().enumerate() {
+        if mask & (1 << i) != 0 {
+            orch::put(&r_ad, key, bytes)?;
+        }
+    }
+    orch::ge("R.refresh (after the file copy)", || r.refresh())?;
+    let rounds = exchange(&mut r, &mut s)?;
+    same_end_state(&r, &r_ad, &s, &s_ad, &format!("after {} exchange round(s)", rounds))
+}
+
+/// (e) the destination's storage accepts only the first `n_ok` writes of a meld; then the destination is reopened
+/// (`reopen`) or refreshed, the fault is gone, and the meld is retried + refresh
+fn interrupted_meld(n_commits: usize, n_ok: u64, reopen: bool, preloaded: bool) -> Result<(), String> {
+    let (s, s_ad, items) = chain_source(n_commits)?;
+    let inner = orch::mem();
+    let plan = Arc::new(Mutex::new(orch::FaultPlan::default()));
+    let ad = orch::dynof(orch::FaultAdapter { inner: inner.clone(), plan: plan.clone() });
+    if preloaded {
+        // the first commit arrived completely some time before
+        for (l, key, bytes) in &items {
+            if l == "d1" || l == "p1" {
+                orch::put(&inner, key, bytes)?;
+            }
+        }
+    }
+    let mut d = orch::open(&ad)?;
+    {
+        let mut p = plan.lock().unwrap();
+        p.armed = true;
+        p.positions = ((n_ok + 1)..(n_ok + 64)).collect();
+    }
+    let written = orch::ge("interrupted D.meld(S)", || d.meld(&s))?;
+    plan.lock().unwrap().armed = false;
+    let mut d = if reopen {
+        drop(d);
+        orch::open(&ad)?
+    } else {
+        orch::ge("D.refresh after the interrupted meld", || d.refresh())?;
+        d
+    };
+    orch::ge("retried D.meld(S)", || d.meld(&s))?;
+    orch::ge("D.refresh", || d.refresh())?;
+    same_end_state(&d, &inner, &s, &s_ad, &format!("first meld wrote {} item(s), then retry", written.len()))
+}
+
+fn labels_of(n: usize, mask: u32) -> String {
+    let mut v = vec![];
+    let mut i = 0;
+    for step in 1..=n {
+        for l in ["d", "p"] {
+            if mask & (1 << i) != 0 {
+                v.push(format!("{}{}", l, step));
+            }
+            i += 1;
+        }
+    }
+    if v.is_empty() { "nothing".to_string() } else { v.join("+") }
+}
+
+fn robustness_cases(thorough: bool, out: &Out) {
+    let n = 3usize;
+    for active in [false, true] {
+        for mask in 0..(1u32 << (2 * n)) {
+            if !thorough && active && mask % 5 != 0 {
+                continue;
+            }
+            let id = format!("catch-up:{}{}", labels_of(n, mask), if active { ":active" } else { "" });
+            let input = json!({"part": "catch-up", "n": n, "mask": mask, "active": active});
+            out.begin(&id, input.clone());
+            out.case(&id, mask != 0 && mask != (1u32 << (2 * n)) - 1);
+            match orch::g(|| catch_up(n, mask, active)) {
+                Ok(Ok(())) => {}
+                Ok(Err(e)) => out.fail("catch-up", &id, input, &format!("files copied beforehand: {}: {}", labels_of(n, mask), e)),
+                Err(p) => out.fail("catch-up", &id, input, &format!("panic: {}", p.lines().next().unwrap_or(""))),
+            }
+        }
+    }
+    for preloaded in [false, true] {
+        for reopen in [true, false] {
+            for n_ok in 0..=(2 * n as u64) {
+                let id = format!("interrupted-meld:{}{}:N{}", if reopen { "reopen" } else { "refresh" }, if preloaded { "+preloaded" } else { "" }, n_ok);
+                let input = json!({"part": "interrupted-meld", "n": n, "n_ok": n_ok, "reopen": reopen, "preloaded": preloaded});
+                out.begin(&id, input.clone());
+                out.case(&id, n_ok > 0 && n_ok < 2 * n as u64);
+                match orch::g(|| interrupted_meld(n, n_ok, reopen, preloaded)) {
+                    Ok(Ok(())) => {}
+                    Ok(Err(e)) => out.fail("interrupted-meld", &id, input, &e),
+                    Err(p) => out.fail("interrupted-meld", &id, input, &format!("panic: {}", p.lines().next().unwrap_or(""))),
+                }
+            }
+        }
+    }
+}
+
 const TARGETS: [&str; 4] = ["obj03", "obj07", "obj31", "\u{221A}"];
 
 fn work(thorough: bool, out: &Out) {
@@ -466,15 +645,16 @@ fn work(thorough: bool, out: &Out) {
             }
         }
     });
+    robustness_cases(thorough, out);
 }
 
 pub fn run(thorough: bool, _seed: u64) -> Report {
     let mut rep = Report::new(
         "meld_audit",
         &(if thorough {
-            "(a) prefix [A.edit, A.commit] + every sequence of <= 6 ops over {A.edit, A.commit, B.edit, B.commit, meld A>B+refresh, meld B>A+refresh} (55987 histories) + 3 scripted histories of 20..24 ops, 4 storage checks on both adapters after every step; (b) 2 source groups (root-only, nested objects + array) x {second pack, second block file} x EVERY byte position x up to 5 replacement bytes (xor 1, space, '}', '\"', '0'); (c) 4 target objects (first pack, second pack, newest, root) out of 33 x EVERY byte of the object's text in its pack x up to 5 replacement bytes, 20 other reads in between"
+            "(a) prefix [A.edit, A.commit] + every sequence of <= 6 ops over {A.edit, A.commit, B.edit, B.commit, meld A>B+refresh, meld B>A+refresh} (55987 histories) + 3 scripted histories of 20..24 ops, 4 storage checks on both adapters after every step; (b) 2 source groups (root-only, nested objects + array) x {second pack, second block file} x EVERY byte position x up to 5 replacement bytes (xor 1, space, '}', '\"', '0'); (c) 4 target objects (first pack, second pack, newest, root) out of 33 x EVERY byte of the object's text in its pack x up to 5 replacement bytes, 20 other reads in between; (d) catch-up: every subset of the 6 files of a 3-commit source copied beforehand (64), passive and active receiver; (e) interrupted-meld: k = 0..6 accepted writes x {reopen, refresh} x {empty, preloaded} destination"
         } else {
-            "(a) prefix [A.edit, A.commit] + every sequence of <= 4 ops over {A.edit, A.commit, B.edit, B.commit, meld A>B+refresh, meld B>A+refresh} (1555 histories) + 3 scripted histories of 20..24 ops, 4 storage checks on both adapters after every step; (b) 2 source groups (root-only, nested objects + array) x {second pack, second block file} x every 5th byte position x up to 5 replacement bytes (xor 1, space, '}', '\"', '0'); (c) 4 target objects (first pack, second pack, newest, root) out of 33 x every 3rd byte of the object's text in its pack x up to 5 replacement bytes, 20 other reads in between"
+            "(a) prefix [A.edit, A.commit] + every sequence of <= 4 ops over {A.edit, A.commit, B.edit, B.commit, meld A>B+refresh, meld B>A+refresh} (1555 histories) + 3 scripted histories of 20..24 ops, 4 storage checks on both adapters after every step; (b) 2 source groups (root-only, nested objects + array) x {second pack, second block file} x every 5th byte position x up to 5 replacement bytes (xor 1, space, '}', '\"', '0'); (c) 4 target objects (first pack, second pack, newest, root) out of 33 x every 3rd byte of the object's text in its pack x up to 5 replacement bytes, 20 other reads in between; (d) catch-up: every subset of the 6 files of a 3-commit source copied beforehand (64) with a passive receiver, every 5th with an active one; (e) interrupted-meld: k = 0..6 accepted writes x {reopen, refresh} x {empty, preloaded} destination"
         })
         .to_string(),
         "exhaustive enumeration of the stated domains; one case per history and storage check, per damaged copy; non-trivial = (a) a meld happens after at least two commits, (b)/(c) every damaged copy; 10 s watchdog per worker thread (thorough: work spread over 3 threads)",
@@ -495,6 +675,25 @@ pub fn replay(case: &Value) -> Value {
             let ops: Option<Vec<usize>> = inp["ops"].as_array().and_then(|a| a.iter().map(|s| s.as_str().and_then(|s| OPS.iter().position(|o| *o == s))).collect());
             if let Some(ops) = ops {
                 history_case(&ops, out);
+            }
+        }
+        Some("catch-up") => {
+            let (n, mask, active) = (inp["n"].as_u64().unwrap_or(3) as usize, inp["mask"].as_u64().unwrap_or(0) as u32, inp["active"].as_bool().unwrap_or(false));
+            let id = format!("catch-up:{}{}", labels_of(n, mask), if active { ":active" } else { "" });
+            match orch::g(|| catch_up(n, mask, active)) {
+                Ok(Ok(())) => {}
+                Ok(Err(e)) => out.fail("catch-up", &id, json!({}), &e),
+                Err(p) => out.fail("catch-up", &id, json!({}), &format!("panic: {}", p)),
+            }
+        }
+        Some("interrupted-meld") => {
+            let (n, n_ok) = (inp["n"].as_u64().unwrap_or(3) as usize, inp["n_ok"].as_u64().unwrap_or(0));
+            let (reopen, preloaded) = (inp["reopen"].as_bool().unwrap_or(true), inp["preloaded"].as_bool().unwrap_or(false));
+            let id = format!("interrupted-meld:{}{}:N{}", if reopen { "reopen" } else { "refresh" }, if preloaded { "+preloaded" } else { "" }, n_ok);
+            match orch::g(|| interrupted_meld(n, n_ok, reopen, preloaded)) {
+                Ok(Ok(())) => {}
+                Ok(Err(e)) => out.fail("interrupted-meld", &id, json!({}), &e),
+                Err(p) => out.fail("interrupted-meld", &id, json!({}), &format!("panic: {}", p)),
             }
         }
         Some("meld-damaged") => {
